@@ -43,6 +43,8 @@ func runC16(c *Check, tier string) {
 	// a process-wide memo in the loader answers every package with its own result
 	ruleCompositeMemoKeyInjective(c, "R16r", "loading", "hashing", "config", "label", "model", "analysis")
 	shareRule(c, "R16k", "every insertion into the node map is guarded by a lookup of the same label that rejects a duplicate (same obligations as R11c)", 2, "R11c", func(sub *Check) { ruleR11c(sub) }, func(k string) bool { return strings.Contains(k, "guarded-insert") })
+	// round 7: a module's top-level statements run for every package that loads it
+	ruleModuleCachePerLoad(c, "R16s")
 }
 
 // R16j: a loader's error reaches the caller: no function of internal/loading (nor the node-map constructor)
